@@ -67,7 +67,7 @@ def tla_seq(txt):
 
 def model_check(chk, tier):
     """Returns leads: list of (env, key) from model counterexamples."""
-    cfgs = ["Startup_boot.cfg", "Startup_lookup2.cfg"]
+    cfgs = ["Startup_boot.cfg", "Startup_lookup2.cfg", "Startup_utf8.cfg"]
     if tier != "quick":
         cfgs.append("Startup_lookup3.cfg")
     info, leads = [], []
@@ -136,6 +136,18 @@ def model_check_aux(chk, tier):
     return info
 
 
+def gen_scripts(chk):
+    """TLC (ArgsIterGen.tla) enumerates the iterator scripts and checks default-methods-on-next = definition"""
+    res = core.run_tlc("ArgsIterGen.tla", "ArgsIterGen.cfg", workers=4, timeout=3000, xmx="4g")
+    core.tlc_must_pass(res, "ArgsIterGen")
+    with _LOCK:
+        chk.add_tlc(res)
+    scripts = [v["script"] for v in res.printed("V")]
+    if len(scripts) != res.distinct or len(scripts) < 100:
+        raise core.ToolError("ArgsIterGen produced %d scripts / %d states" % (len(scripts), res.distinct))
+    return scripts
+
+
 def gen(chk, mode, maxenv):
     cfg = os.path.join(chk.work, "StartupGen_%s_%d.cfg" % (mode, maxenv))
     with open(cfg, "w") as f:
@@ -161,7 +173,8 @@ def write_cases(path, binary, cases, stack_every=0):
                 f.write("arg %s\n" % hx(a))
             for e in c["env"]:
                 f.write("env %s\n" % hx(e))
-            payload = "".join(hx(k) + "\n" for k in c["keys"])
+            payload = "".join(hx(k) + "\n" for k in c["keys"]) + "".join(
+                "it %s %s\n" % (v, ",".join("%s%s" % (o, k if o in "htp" else "") for o, k in s)) for v, s in c.get("scripts", []))
             f.write("in %s\n" % (payload.encode().hex() or "-"))
             if c.get("ids"):
                 f.write("ids %d %d\n" % tuple(c["ids"]))
@@ -219,6 +232,28 @@ def stack_picture(r):
     return words, list(mem)
 
 
+def parse_el(s):
+    return {"k": "err"} if s == "E" else {"k": "ok", "v": unhx(s)}
+
+
+def parse_obs(o):
+    if o == "N":
+        return {"t": "none"}
+    if o[0] == "I":
+        return {"t": "item", "el": parse_el(o[1:])}
+    if o[0] == "#":
+        return {"t": "num", "n": int(o[1:])}
+    if o[0] == "H":
+        lo, hi = o[1:].split(",")
+        return {"t": "hint", "lo": int(lo), "hi": -1 if hi == "N" else int(hi)}
+    if o[0] == "[":
+        body = o[1:-1]
+        els = [x for x in body.split(";") if x != ""] if body else []
+        over = bool(els) and els[-1] == "!"
+        return {"t": "list", "v": [parse_el(x) for x in els if x != "!"], "over": over}
+    return {"t": "garbled"}
+
+
 def utf8(bs):
     try:
         bytes(bs).decode("utf-8")
@@ -234,7 +269,7 @@ def to_record(c, mode, build, r):
            "argc": [0, 0], "args_os": [], "args": [], "look": [],
            "aux": {"uid": -1, "gid": -1, "random": [], "execfn": []},
            "kaux": {"uid": -2, "gid": -2, "random": [], "execfn": []},
-           "mono": [], "real": [], "reloc": [], "has_aux": mode != "dyn-noaux"}
+           "mono": [], "real": [], "reloc": [], "iters": [], "has_aux": mode != "dyn-noaux"}
     st = r.get("status")
     rec["status"] = "exit0" if (st == "exit" and r.get("code") == 0) else (
         "crashed:sig%d" % r["code"] if st == "signal" else "timeout" if st == "timeout" else "exit:%s" % r.get("code"))
@@ -269,6 +304,9 @@ def to_record(c, mode, build, r):
                     look[w[1]] = {"key": unhx(w[1]), "var": {"k": "skipped"}, "varu": {"k": "skipped"}}
                     order.append(w[1])
                 look[w[1]][w[0]] = res_of(w[2:])
+            elif w[0] == "iter":
+                rec["iters"].append({"v": w[1], "script": [[tk[0], int(tk[1:] or 0)] for tk in w[2].split(",")],
+                                     "obs": [parse_obs(o) for o in w[3].split("|")]})
             elif w[0] == "done":
                 done = True
     except (ValueError, IndexError):
@@ -277,7 +315,7 @@ def to_record(c, mode, build, r):
     # a key that is neither UTF-8 (no var) nor NUL-free (no var_unix) cannot be passed to either function: the probe
     # prints nothing for it
     askable = [k for k in c["keys"] if 0 not in k or utf8(k)]
-    if rec["status"] == "exit0" and (not done or len(rec["look"]) != len(askable)):
+    if rec["status"] == "exit0" and (not done or len(rec["look"]) != len(askable) or len(rec["iters"]) != len(c.get("scripts", []))):
         rec["status"] = "incomplete"
     return rec
 
@@ -516,6 +554,22 @@ def report(chk, rec, verdict, replay):
             chk.violate({"clause": "stack"},
                         "[%s/%s] the probe's answers differ from the real initial stack read with Startup.tla's Args/EnvBlock/Aux: args_os=%s aux=%s" % (
                             rec["mode"], rec["build"], [show(a) for a in rec["args_os"]], brief_aux(rec["aux"])), replay)
+        elif clause == "iter":
+            seen = set()
+            for j, fb in verdict.get("iters", []):
+                it = rec["iters"][j - 1]
+                op = it["script"][fb - 1] if fb <= len(it["script"]) else ["?", 0]
+                sig = (it["v"], op[0], fb > 1)
+                if sig in seen:
+                    continue
+                seen.add(sig)
+                chk.violate({"clause": "iter", "iterator": "args_os" if it["v"] == "o" else "args", "op": op[0],
+                             "on": "advanced_iterator" if fb > 1 else "fresh_iterator"},
+                            "[%s/%s] argv=%s: %s script %s: observation %d is %s, the Iterator laws prescribe otherwise (all observations: %s)" % (
+                                rec["mode"], rec["build"], [show(a) for a in rec["kargv"]], "args_os()" if it["v"] == "o" else "args()",
+                                it["script"], fb, json.dumps(it["obs"][fb - 1])[:120] if fb <= len(it["obs"]) else "missing",
+                                json.dumps(it["obs"])[:300]),
+                            dict(replay, scripts=[[it["v"], it["script"]]]))
         elif clause == "reloc":
             chk.violate({"clause": "reloc", "mode": rec["mode"]},
                         "[%s/%s] strings read through the probe's relocated pointer tables: %s" % (
@@ -962,6 +1016,11 @@ EXTRA_ENVS = [
     [[65, 66, 67, 68, 61] + [76] * 200, [65, 61] + [76] * 200],      # long values
     [[65, 66, 61, 49], [65, 61, 50], [65, 66, 67, 61, 51], [65, 66, 67, 68, 61, 52], [66, 61, 53], [67, 61, 54], [61, 55]],
     [[61], [61, 61], [65], [65, 61]],
+    # duplicates whose FIRST matching entry has a non-UTF-8 value and a later one a valid value, and the reverse:
+    # var must answer from the first (NotUnicode resp. the value), var_unix returns the first one's bytes
+    [[65, 61, 255, 254], [65, 61, 111, 107]],
+    [[65, 61, 111, 107], [65, 61, 255, 254]],
+    [[66, 61, 120], [65, 66, 61, 255], [65, 61, 255, 254], [65, 66, 61, 121], [65, 61, 111, 107], [65, 61, 255]],
 ]
 
 
@@ -1040,6 +1099,13 @@ def run(tier):
                            "ids": (1000 + i % 7, 2000 + i % 5) if (i % 3 == 0 and use_ids) else None}
                           for i, v in enumerate(envs)]
     cases += [dict(c, ids=None) for c in extra_cases]
+    # the Iterator surface of args_os() / args(): every generated script on a 5-argument vector, on a vector with a
+    # non-UTF-8 argument in the middle, and on a 1-argument vector
+    scripts = gen_scripts(chk)
+    both = [(v, s) for s in scripts for v in ("o", "s")]
+    for av in ([list(b"a%d" % i) for i in range(5)], [[97], [255, 254], [98]], [[122]]):
+        cases.append({"argv": av, "env": [[65, 61, 120]], "keys": [[65]], "scripts": both, "ids": None})
+    chk.extra["iterator_scripts"] = len(scripts)
     # every argument vector at least once even if there are few env blocks
     for i in range(len(envs), len(argvs)):
         cases.append({"argv": argvs[i], "env": [], "keys": KEYS[:2]})
@@ -1135,6 +1201,7 @@ def run(tier):
                        "self-relocation: judged for every word named by .rela.dyn/.rel.dyn and for the other words of .data.rel.ro/.got; REL entries do not occur with this linker (model only)",
                        "vDSO lookup: the probes' stored pointer and the real lookup function on 11 variants of this kernel's vDSO image; other kernels' images are covered only by the bounded model",
                        "for the empty key 'missing' is admitted next to the definitional answer (names are non-empty in POSIX)",
+                       "the Iterator surface of args()/args_os() is exercised by TLC-generated scripts of <= 3 calls on one iterator (argument vectors of 1, 3 and 5 items); size_hint may be any correct bracket of the remaining count",
                        "UTF-8 validity is decided only for all-ASCII strings (valid) and strings with a byte that never occurs in UTF-8 (invalid)",
                        "clock: the tiny-std reading lies between two direct system-call readings; whether it came from the vDSO is "
                        "measured by counting clock_gettime system calls under strace (extra.vdso)"]
@@ -1154,7 +1221,8 @@ def replay(path):
             print("REJECTED", v.what[:1500])
         print("accepted" if not chk.violations else "%d violation(s)" % len(chk.violations))
         return 1 if chk.violations else 0
-    case = {"argv": rp["argv"], "env": rp["env"], "keys": rp.get("keys") or [rp.get("key", [])]}
+    case = {"argv": rp["argv"], "env": rp["env"], "keys": rp.get("keys") or [rp.get("key", [])],
+            "scripts": [(v, s) for v, s in rp.get("scripts", [])]}
     recs, raws = run_binary(chk, rp["mode"], rp["build"], os.path.join(bdir, "startprobe"), [case], "replay")
     bad = judge(chk, recs, "replay")
     print(json.dumps(recs[0])[:3000])
